@@ -313,10 +313,7 @@ func c07Hist(c *mc.Ctx, k c07Case, _ func(slots int) []int) {
 				}
 			}
 			d0 := m.digest()
-			if txt := m.str(); len(model) > 0 && len(txt) < 2 {
-				bad("string", "%s: String() returned %q for a map of %d keys", when, txt, len(model))
-				return false
-			}
+			m.str() // String() is a query like the others: what it returns is not specified, what it must not do is disturb the map
 			for _, p := range c07Keys {
 				id, present := model[p]
 				var alts []int
